@@ -83,6 +83,9 @@ Var Xdl::read(const String& file)
 	if (size == 0)
 		return Var();
 	Array<char> buffer(min(16382, size) + 1);
+#ifdef ASL_VERIF
+	buffer.resize(asl_verif_knob("xdl.read_chunk", buffer.length() - 1) + 1);
+#endif
 	byte bom[3];
 	if(tfile.read(bom, 3) == 3 && !(bom[0] == 0xef && bom[1] == 0xbb && bom[2] == 0xbf))
 		tfile.seek(0);
